@@ -12,8 +12,11 @@ func InitGenesis(ctx sdk.Context, k keeper.Keeper, genState types.GenesisState) 
 	var lockedVaultID uint64
 	for _, item := range genState.LockedVault {
 		k.SetLockedVault(ctx, item)
-		lockedVaultID = lockedVaultID + 1
+		if item.LockedVaultId > lockedVaultID {
+			lockedVaultID = item.LockedVaultId
+		}
 	}
+	k.SetLockedVaultID(ctx, lockedVaultID)
 
 	for _, item := range genState.LiquidationWhiteListing {
 		k.SetLiquidationWhiteListing(ctx, item)
